@@ -87,6 +87,12 @@ fn gen_text(rng: &mut Rng, ctx: &mut Ctx) -> String {
                 ctx.bucket("lookalike:sourceURL");
                 format!("//# sourceURL={url}")
             }
+            10 | 11 => {
+                // code lines of every length around the marker's length (21 bytes)
+                let k = rng.range_usize(0, 44);
+                ctx.bucket_if((19..=22).contains(&k), "code-line-about-as-long-as-the-marker");
+                "x;".repeat(k / 2) + if k % 2 == 1 { "y" } else { "" }
+            }
             _ => rng.pick_str(CODE).to_string(),
         };
         lines.push(l);
